@@ -1,5 +1,6 @@
 #![allow(dead_code, unused_imports, unused_variables, clippy::all)]
 mod engine;
+mod lincode;
 mod model;
 mod props;
 mod schemes;
